@@ -1,6 +1,6 @@
 """Registration of the claimed properties (see DESIGN.md section 4)."""
 
-from .registry import register, SeqPart, ConcPart
+from .registry import register, SeqPart, ConcPart, SingleSweepPart, SingleRandomPart
 
 COMMON_ASSUME = [
     "the kernel file system (tmpfs sandbox) and CPython's os/io/shutil/tempfile/pathlib are correct",
@@ -86,3 +86,58 @@ register("C08", "exploration",
          COMMON_ASSUME + ["blocking is simulated: a task that would block is parked by the scheduler, so slow != blocked"],
          40, 480,
          [ConcPart("C08", "obj", name="conc-obj"), ConcPart("C08", "meta", name="conc-meta", weight=0.7)])
+
+register("C13", "fault_enumeration",
+         "two parts: a complete sweep of the (start state x call) menu over every fault site (create, open for "
+         "writing, open for reading, rename, remove, mkdir, flock) x {one-off, persistent} for EIO (quick: core menu; "
+         "thorough: extended menu x EIO/ENOSPC/EACCES), and seeded random (state history, call, configuration, "
+         "knobs, site, errno, mode) runs. distinct+non-trivial = distinct (start state, call, site kind, path "
+         "class, errno, mode) at which the fault actually fired",
+         COMMON_ASSUME + ["exactly one injected failure per run; existence probes (stat) are not fault sites",
+                          "'persistent' = every later event of the same call on the same target path fails too "
+                          "(renaming the failing path away is unaffected)",
+                          "a swallowed failure of the final remove of a *_delete marker is residue, not a violation"],
+         45, 600,
+         [SingleSweepPart("C13", "FAULT", "fault-sweep", errnos=("EIO",), weight=3.0,
+                          extended_in=("thorough",)),
+          SingleRandomPart("C13", "FAULT", "fault-random", weight=1.0)])
+
+register("C10", "fault_enumeration",
+         "three parts: complete sweep of the (start state x call) menu with process death before every mutating "
+         "seam event (create, open for writing, mkdir, rename, remove, chmod, flock, file write / truncate / close); "
+         "seeded random (state history, call, configuration, st_blksize, write-through, crash index, optional second "
+         "crash inside the recovery); and a fork cross-check of the crash stub (real fork + os._exit at the same "
+         "event, directories compared byte for byte). distinct+non-trivial = distinct (start state, call, event "
+         "index/kind) at which the process died",
+         COMMON_ASSUME + ["process death, not power loss: every completed system call is durable, bytes still in a "
+                          "Python buffer are lost (HashStore never calls fsync; no property claims power-loss safety)",
+                          "'exactly as before' for other pids is taken at the observable level (bytes, metadata, pid "
+                          "reference, membership in the cid list); the shared cid list file itself is legitimately "
+                          "edited by the interrupted call"],
+         45, 600,
+         [SingleSweepPart("C10", "CRASH", "crash-sweep", weight=3.0,
+                          knob_sets=[dict(write_through=True, blksize=4)]),
+          SingleRandomPart("C10", "CRASH", "crash-random", weight=1.5, second=True)])
+
+register("C09", "fault_enumeration",
+         "three parts: (atom-sweep) every (start state, call, knob set) of the menu executed once with the "
+         "invariant monitor evaluated at EVERY seam event -- i.e. at every point between two kernel-visible steps, "
+         "which is both what a concurrent reader scheduled at that instant and what an inspector after a crash at "
+         "that instant sees -- with write-through on/off and single-/multi-buffer contents; (atom-random) the same "
+         "for seeded random (state, call, configuration, knobs); (atom-conc) the monitor attached to the C07/C12 "
+         "multi-task runs. Invariant: each file at a permanent object address hashes to its name, each metadata "
+         "document equals a complete supplied version, each pid reference holds one complete supplied cid. "
+         "distinct+non-trivial = distinct (state, call, knobs, set of (event kind, path class) at which a "
+         "permanent path had just changed)",
+         COMMON_ASSUME + ["cid reference lists are updated in place by design and are not in the statement",
+                          "fault-free runs only (shutil.move falls back to copy only after an injected rename failure)",
+                          "an instantaneous look at the directory is the strongest reader (a POSIX reader that already "
+                          "opened a file keeps the old inode across rename-replace)"],
+         40, 480,
+         [SingleSweepPart("C09", "ATOM", "atom-sweep", weight=1.0,
+                          knob_sets=[dict(write_through=True, blksize=4), dict(write_through=False),
+                                     dict(write_through=True, csize=(9000, 20000)),
+                                     dict(write_through=False, csize=(9000, 20000), blksize=512)]),
+          SingleRandomPart("C09", "ATOM", "atom-random", weight=1.0),
+          ConcPart("C09", "obj", name="atom-conc-obj", atom=True, weight=1.0),
+          ConcPart("C09", "meta", name="atom-conc-meta", atom=True, weight=0.7)])
